@@ -54,7 +54,7 @@ def mkCfg (d : DState) : Cfg :=
       | some l => l
       | none => asciiLower s
     isPrint := Gen.isPrint
-    reserved := Gen.reserved
+    reserved := b!"C" :: Gen.reserved
     stdHints := Gen.stdHints }
 
 def findConstruct (api : Str) : Option Gen.Construct := Gen.constructs.find? (·.api == api)
